@@ -33,6 +33,8 @@ def classify_written(f, b, t, params_ok):
     if t0[0] == "constdef" and t0[1].startswith("prometheus::"):
         return "const"
     if t0[0] == "var":
+        if tc.type_word_table(b, f, t):
+            return "type-word"
         alts = b.var_alts(t0[1])
         if alts and all(tc.const_str(peel(a)) is not None for a in alts):
             return "const"
@@ -104,6 +106,53 @@ def rule_R1(ctx, f):
                 ctx.ob(rid, "%s|direct-write" % strip_generics(b.path), False, "the text encoder must write only through WriteUtf8::write_all (found %s)" % strip_generics(c.callee), site=c.span)
 
 
+def _assume_region(es, start, stop, c_term, v, flag):
+    """Blocks reachable from `start` (not through `stop`) when the scanned character is `v` and the flag parameter is `flag`."""
+    def value(t):
+        t = peel(t) if isinstance(t, tuple) else t
+        if t == P(2):
+            return flag
+        if t == peel(c_term):
+            return v
+        if isinstance(t, tuple) and t and t[0] in ("const", "constdef"):
+            if t[0] == "const" and t[1] in ("true", "false"):
+                return t[1] == "true"
+            return const_int(t)
+        if isinstance(t, tuple) and t and t[0] == "cast":
+            return value(t[2])
+        if isinstance(t, tuple) and t and t[0] == "unop" and t[1] == "Not":
+            x = value(t[2])
+            return None if not isinstance(x, bool) else (not x)
+        if isinstance(t, tuple) and t and t[0] == "binop" and t[1] in ("Eq", "Ne", "Lt", "Le", "Gt", "Ge", "BitAnd", "BitOr"):
+            x, y = value(t[2]), value(t[3])
+            if x is None or y is None:
+                if t[1] == "BitOr" and (x is True or y is True):
+                    return True
+                if t[1] == "BitAnd" and (x is False or y is False):
+                    return False
+                return None
+            return {"Eq": x == y, "Ne": x != y, "Lt": x < y, "Le": x <= y, "Gt": x > y, "Ge": x >= y, "BitAnd": bool(x) and bool(y), "BitOr": bool(x) or bool(y)}[t[1]]
+        return None
+    stop = set(stop)
+    seen, work = set(), [start]
+    while work:
+        x = work.pop()
+        if x in seen or x in stop:
+            continue
+        seen.add(x)
+        si = es.switch_info(x)
+        if si:
+            val = value(si[0])
+            if isinstance(val, bool):
+                val = 1 if val else 0
+            if val is not None:
+                hit = [t for vv, t in si[1] if vv == val]
+                work.append(hit[0] if hit else si[2])
+                continue
+        work.extend(es.succs(x))
+    return seen
+
+
 def rule_R2(ctx, f):
     rid = "R2"
     ctx.rule(rid, "escape table vs fast path: per flag, the characters handled by the match in escape_string are a subset of the memchr needles of "
@@ -149,13 +198,9 @@ def rule_R2(ctx, f):
         head = [c.bb for c in es.calls_to("Iterator::next")]
         for v, tgt in si[1]:
             for flag in (True, False):
-                # evaluate the arm under the assumption include_double_quote == flag
-                avoid_edges = []
-                for bj in es.reach(tgt, avoid_blocks=head):
-                    be = es.bool_edges(bj)
-                    if be and peel(be[0]) == P(2):
-                        avoid_edges.append((bj, be[2] if flag else be[1]))
-                reg = es.reach(tgt, avoid_blocks=head, avoid_edges=avoid_edges)
+                # evaluate the arm under the assumptions c == v and include_double_quote == flag: tests of the flag and comparisons of the
+                # character with a literal (match guards, nested matches) take the one edge these values select
+                reg = _assume_region(es, tgt, head, si[0], v, flag)
                 raw = [c for c in es.calls() if c.bb in reg and c.matches("String::push")]
                 if reg & esc_blocks and not raw:
                     lits = {esc_lit[x] for x in reg if x in esc_lit}
@@ -598,7 +643,7 @@ def rule_R7(ctx, f):
             seq.append("NAME")
         elif is_call(t, "escape_string"):
             seq.append("HELP")
-        elif is_call(t, "str::to_lowercase"):
+        elif is_call(t, "str::to_lowercase") or tc.type_word_table(b, f, c.args[1]):
             seq.append("TYPE")
         else:
             seq.append("?")
